@@ -210,7 +210,7 @@ def _ready_initial(ctx, mod):
 def _pop_run(ctx, mod):
     sites = []
     for qn, f in mod.functions():
-        for n, b in find("M_st['ready'].pop(*M_a)", f, nested=False):
+        for n, b in find("M_st['ready'].pop(*M_rest)", f, nested=False):
             sites.append((f, n))
     ctx.count("ready_pop_sites", len(sites))
     ctx.floor("ready_pop_sites", 1)
